@@ -28,10 +28,14 @@ def cgmy_params(draw, branches=None, y_max=1.9):
         y = 0.0
     elif br == "0<y<1":
         y = draw(_f(0.05, 0.95))
+        if draw(st.integers(0, 9)) == 0:  # close to, but not at, the special index 1
+            y = draw(st.sampled_from([0.999992, 0.999, 0.99]))
     elif br == "y=1":
         y = 1.0
     else:
         y = draw(_f(1.05, y_max))
+        if draw(st.integers(0, 9)) == 0:
+            y = draw(st.sampled_from([1.000008, 1.001, 1.01]))
     return {"c": draw(_f(0.01, 5.0)), "g": draw(_f(1.5, 40.0)), "m": draw(_f(1.5, 40.0)), "y": y}
 
 
@@ -49,6 +53,9 @@ def merton_params(draw):
 
 @st.composite
 def vg_params(draw):
+    if draw(st.integers(0, 5)) == 0:
+        # low volatility and a small variance rate: decay rates of the density in the thousands (jump scale below 1e-3)
+        return {"sigma": draw(_f(0.01, 0.05)), "nu": draw(_f(0.01, 0.05)), "theta": draw(_f(-0.05, 0.05))}
     return {"sigma": draw(_f(0.05, 0.5)), "nu": draw(_f(0.01, 1.0)), "theta": draw(_f(-0.4, 0.4))}
 
 
